@@ -295,6 +295,46 @@ RENDER_FS = '''let vs = |v: Vertex3<f32, BA>, m: &Mat4x4<RealToProj<BA>>| vertex
     render(tris, verts, &sh, &m, viewport(pt2(0, 0)..pt2(4, 4)), &mut tgt, &Context::default());'''
 t("fragment shader output colour", RENDER_FS, [FSOUT], lambda o: o in FSOUT[:3])
 
+# --- entry points that PRODUCE points and vectors: samplers, curves, interpolation ----------------------------------------
+# (a value produced as a vector where a point is meant - or the reverse - makes "point + point" and friends compile one step
+# later: every producer is pinned to the kind and basis of what it yields)
+RNG = "let mut rng = retrofire_core::math::rand::DefaultRng::default(); use retrofire_core::math::rand::*; "
+KIND3 = ["Point3", "Vec3"]
+KIND2 = ["Point2", "Vec2"]
+t("Uniform(pt3..pt3).sample kind/basis", RNG + "let _: {2}<{1}> = Uniform(p3::<{0}>()..p3::<{0}>()).sample(&mut rng);", [B, B, KIND3], lambda a, b, k: a == b and k == "Point3")
+t("Uniform(vec3..vec3).sample kind/basis", RNG + "let _: {2}<{1}> = Uniform(v3::<{0}>()..v3::<{0}>()).sample(&mut rng);", [B, B, KIND3], lambda a, b, k: a == b and k == "Vec3")
+t("Uniform(pt2..pt2).sample kind/basis", RNG + "let _: {2}<{1}> = Uniform(p2::<{0}>()..p2::<{0}>()).sample(&mut rng);", [B, B, KIND2], lambda a, b, k: a == b and k == "Point2")
+t("Uniform(vec2..vec2).sample kind/basis", RNG + "let _: {2}<{1}> = Uniform(v2::<{0}>()..v2::<{0}>()).sample(&mut rng);", [B, B, KIND2], lambda a, b, k: a == b and k == "Vec2")
+t("pt3 + Uniform(pt3..pt3).sample (never)", RNG + "let _ = p3::<{0}>() + Uniform(p3::<{0}>()..p3::<{0}>()).sample(&mut rng);", [B], lambda a: False)
+t("pt3 + Uniform(vec3..vec3).sample", RNG + "let _ = p3::<{0}>() + Uniform(v3::<{1}>()..v3::<{1}>()).sample(&mut rng);", [B, B], eq)
+t("pt3 - Uniform(pt3..pt3).sample", RNG + "let _: Vec3<{1}> = p3::<{0}>() - Uniform(p3::<{0}>()..p3::<{0}>()).sample(&mut rng);", [B, B], eq)
+t("Uniform(pt3..vec3) (never)", RNG + "let _ = Uniform(p3::<{0}>()..v3::<{0}>());", [B], lambda a: False)
+t("Uniform(pt3<A>..pt3<B>) bases", RNG + "let _ = Uniform(p3::<{0}>()..p3::<{1}>()).sample(&mut rng);", [B, B], eq)
+t("unit-shape samplers: kind", RNG + "let _: {1} = {0}.sample(&mut rng);", [["UnitCircle", "VectorsOnUnitDisk", "PointsOnUnitDisk"], KIND2], lambda d, k: (k == "Point2") == d.startswith("Points"))
+t("unit-volume samplers: kind", RNG + "let _: {1} = {0}.sample(&mut rng);", [["UnitSphere", "VectorsInUnitBall", "PointsInUnitBall"], KIND3], lambda d, k: (k == "Point3") == d.startswith("Points"))
+t("pt2 + PointsOnUnitDisk.sample (never)", RNG + "let _ = pt2::<f32, ()>(0.0, 0.0) + PointsOnUnitDisk.sample(&mut rng);", [[""]], lambda a: False)
+BEZ = "use retrofire_core::math::spline::*; "
+t("CubicBezier<pt3>.eval kind/basis", BEZ + "let _: {2}<{1}> = CubicBezier([p3::<{0}>(); 4]).{3}(0.5);", [B, B, KIND3, ["eval", "fast_eval"]], lambda a, b, k, f: a == b and k == "Point3")
+t("CubicBezier<pt3>.tangent kind/basis", BEZ + "let _: {2}<{1}> = CubicBezier([p3::<{0}>(); 4]).tangent(0.5);", [B, B, KIND3], lambda a, b, k: a == b and k == "Vec3")
+t("CubicBezier<vec3>.eval kind/basis", BEZ + "let _: {2}<{1}> = CubicBezier([v3::<{0}>(); 4]).eval(0.5);", [B, B, KIND3], lambda a, b, k: a == b and k == "Vec3")
+t("CubicBezier mixed control points (never)", BEZ + "let _ = CubicBezier([p3::<{0}>(), p3::<{1}>(), p3::<{0}>(), p3::<{0}>()]);", [B, B], eq)
+t("BezierSpline<pt2>.eval kind/basis", BEZ + "let _: {2}<{1}> = BezierSpline::new(&[p2::<{0}>(); 4]).eval(0.5);", [B, B, KIND2], lambda a, b, k: a == b and k == "Point2")
+t("BezierSpline<pt2>.tangent kind/basis", BEZ + "let _: {2}<{1}> = BezierSpline::new(&[p2::<{0}>(); 4]).tangent(0.5);", [B, B, KIND2], lambda a, b, k: a == b and k == "Vec2")
+t("BezierSpline<pt2>.approximate item kind", BEZ + "let _: Vec<{2}<{1}>> = BezierSpline::new(&[p2::<{0}>(); 4]).approximate(|_| true);", [B, B, KIND2], lambda a, b, k: a == b and k == "Point2")
+t("pt3.lerp result kind", "let _: {2}<{1}> = p3::<{0}>().lerp(&p3::<{0}>(), 0.5);", [B, B, KIND3], lambda a, b, k: a == b and k == "Point3")
+t("vec3.lerp result kind", "let _: {2}<{1}> = v3::<{0}>().lerp(&v3::<{0}>(), 0.5);", [B, B, KIND3], lambda a, b, k: a == b and k == "Vec3")
+t("pt3 + vec3 result kind", "let _: {2}<{1}> = p3::<{0}>() + v3::<{0}>();", [B, B, KIND3], lambda a, b, k: a == b and k == "Point3")
+t("pt3.vary_to item kind", "let _: Vec<{2}<{1}>> = p3::<{0}>().vary_to(p3::<{0}>(), 3).collect();", [B, B, KIND3], lambda a, b, k: a == b and k == "Point3")
+# --- user-defined maps: the Compose contract holds for every implementor, not only for the built-in map types ----------------
+MIRROR = '''#[derive(Copy, Clone, Debug, Default)] struct Mirror;
+    impl retrofire_core::math::mat::LinearMap for Mirror {{ type Source = Real<3, {0}>; type Dest = Real<3, {1}>; }}
+    impl retrofire_core::math::mat::Compose<RealToReal<3, {2}, {3}>> for Mirror {{ type Result = RealToReal<3, {4}, {5}>; }}'''
+t("impl Compose for a user-defined map", MIRROR, [B, B, B, B, B, B], lambda s, d, s2, d2, rs, rd: d2 == s and rs == s2 and rd == d)
+MIRROR2 = '''#[derive(Copy, Clone, Debug, Default)] struct Mirror;
+    impl retrofire_core::math::mat::LinearMap for Mirror {{ type Source = Real<3, {0}>; type Dest = Real<3, {1}>; }}
+    impl retrofire_core::math::mat::Compose<Mirror> for RealToReal<3, {2}, {3}> {{ type Result = RealToReal<3, {0}, {3}>; }}'''
+t("impl Compose<user map> for a built-in map", MIRROR2, [B, B, B, B], lambda s, d, s2, d2: s2 == d)
+
 
 def programs():
     out = []
